@@ -262,6 +262,27 @@ class Gen:
         return "DIM " + ",".join(items)
 
     # ---- whole program
+    def circles_program(self):
+        """Graphics statements with every optional-argument form, their arguments often
+        containing functions that are hoisted into procedure calls."""
+        r = self.r
+        f = lambda: r.choice(("INT(R)/2", "JOYSTK(0)/63", "BUTTON(1)", "POINT(1,2)", "VAL(A$)", "3", "R",
+                              "INSTR(1,A$,B$)", "10", "X+1"))   # noqa: E731
+        forms = (lambda: "HCIRCLE(%s,%s),%s" % (f(), f(), f()),
+                 lambda: "HCIRCLE(%s,%s),%s,%s" % (f(), f(), f(), f()),
+                 lambda: "HCIRCLE(%s,%s),%s,,%s" % (f(), f(), f(), f()),
+                 lambda: "HCIRCLE(%s,%s),%s,%s,%s" % (f(), f(), f(), f(), f()),
+                 lambda: "HCIRCLE(%s,%s),%s,,%s,%s,%s" % (f(), f(), f(), f(), f(), f()),
+                 lambda: "HCIRCLE(%s,%s),%s,%s,%s,%s,%s" % (f(), f(), f(), f(), f(), f(), f()),
+                 lambda: "HLINE(%s,%s)-(%s,%s),PSET" % (f(), f(), f(), f()),
+                 lambda: "HLINE-(%s,%s),PRESET,B" % (f(), f()),
+                 lambda: "HPAINT(%s,%s),%s" % (f(), f(), f()),
+                 lambda: "HSET(%s,%s)" % (f(), f()),
+                 lambda: "HPRINT(%s,%s),%s" % (f(), f(), r.choice(('"HI"', "A$", f()))))
+        n = r.choice((1, 1, 2, 4))
+        return "".join("%d %s\n" % (10 * (i + 1), ":".join(r.choice(forms)() for _ in range(r.choice((1, 1, 2)))))
+                       for i in range(n))
+
     def forest_program(self):
         """Dozens to hundreds of FOR statements that are never closed (indentation levels and
         per-process high-water marks), sometimes followed by a tiny FOR/NEXT one-liner."""
@@ -302,6 +323,8 @@ class Gen:
                 return self.huge_literal_program()
             if c0 < 0.12:
                 return "10 FOR%s=1TO2:NEXT%s\n" % ((r.choice("IJK"),) * 2)
+            if c0 < 0.22:
+                return self.circles_program()
         flavour = flavour or r.choice(("arrays", "strings", "devices", "jumps", "data", "mixed", "mixed"))
         # DATA-heavy programs come with and without empty items (an empty item switches on a
         # rewriting pass over every DATA literal of the program)
@@ -366,6 +389,7 @@ def gen_program(rng, flavour=None, refuse=None):
     return Gen(rng).program(flavour, refuse)
 
 
+COMMON_MAPS = ({"A$": 10, "D$()": 64}, {"N$": 64, "Q1$": 200, "G$()": 10}, {"ZZ$": 1000})
 BOOL_OPTS = ("add_standard_prefix", "add_suffix", "default_width32", "filter_unused_linenum",
              "initialize_vars", "output_dependencies", "skip_procedure_headers")
 
@@ -382,7 +406,10 @@ def gen_options(rng):
         o["default_str_storage"] = rng.choice((32, 80, 255, 1, 100))
     if rng.random() < 0.5:
         o["procname"] = rng.choice(("", "prog", "a-b", "Prog_1", "bad name"))
-    if rng.random() < 0.3:
+    if rng.random() < 0.2:
+        # a few mappings that many calls share (a host that keeps one config object)
+        o["string_configs"] = dict(rng.choice(COMMON_MAPS))
+    elif rng.random() < 0.3:
         m = {}
         for _ in range(rng.randint(1, 4)):
             n = rng.choice(STR_NAMES + [s + "()" for s in SARR_NAMES])
